@@ -335,7 +335,7 @@ def run(chk):
                           found=False, key="behaviour-table")
 
     # ---- proofs (Props/C09.vo cone + the runner)
-    chk.proofs(extra_targets=["Model/UnitsRun.vo"])
+    chk.proofs(extra_targets=["Model/UnitsRun.vo"], extra_props=["Props/UnitsOrder.v"])
 
     quick = chk.tier == "quick"
     if not quick and not chk.replay and not chk.broken_obligation:
